@@ -4,7 +4,7 @@
 #![allow(dead_code, non_snake_case, non_camel_case_types)]
 
 use crate::Kind::{Flag, Opt, Rep, Req};
-use crate::Ty::{Str, Unix, UnixString as UStr, Word};
+use crate::Ty::{Str, Unix, UnixString as UStr, Word, WordU};
 use crate::{help_of, number, run, Grammar, Kind, OptD, PosD, Shape, SubD, ToM, Tok, Ty, F, L200, M, V};
 use tiny_cli::{ArgParse, Subcommand};
 use tiny_std::{UnixStr, UnixString};
@@ -648,6 +648,7 @@ pub fn all() -> Vec<Shape> {
     v.extend(echoes());
     v.extend(spellings());
     v.extend(audit());
+    v.extend(swallowers());
     v
 }
 
@@ -1421,5 +1422,106 @@ fn audit() -> Vec<Shape> {
         shape("AttrAllowAfter", g(vec![o(Some("--out"), None, Opt, Str, &[X, DX])], vec![], None), run::<AttrAllowAfter>, || vec![help_of::<AttrAllowAfter>()]),
         shape("AttrTwoCli", g(vec![o(Some("--out"), Some("-o"), Opt, Str, &[X, DX])], vec![], None), run::<AttrTwoCli>, || vec![help_of::<AttrTwoCli>()]),
         shape("ArgSwap", g(vec![], vec![p(true, Str, &[X, E]), p(true, Str, &[b"7", ACC])], None), run::<ArgSwap>, || vec![help_of::<ArgSwap>()]),
+    ]
+}
+
+// ===========================================================================
+// Field types whose `FromStr::Err` Display is best-effort: it swallows the error of a
+// write the cause buffer refused.  A value is a possibly empty run of Unicode letters and
+// digits; the error echoes the run before the first other character.  Whatever the
+// Display does, the parser must hand back an error value that renders.
+
+fn word_u(s: &str) -> Result<String, BadChar> {
+    for (i, c) in s.char_indices() {
+        if !c.is_alphanumeric() {
+            return Err(BadChar { before: s[..i].to_string(), c });
+        }
+    }
+    Ok(s.to_string())
+}
+macro_rules! swallow_type {
+    ($name:ident, $err:ident, |$e:ident, $f:ident| $body:expr) => {
+        pub struct $name(String);
+        pub struct $err(BadChar);
+        impl core::str::FromStr for $name {
+            type Err = $err;
+            fn from_str(s: &str) -> Result<Self, Self::Err> {
+                word_u(s).map($name).map_err($err)
+            }
+        }
+        impl core::fmt::Display for $err {
+            fn fmt(&self, $f: &mut core::fmt::Formatter<'_>) -> core::fmt::Result {
+                let $e = &self.0;
+                $body
+            }
+        }
+    };
+}
+// ignore-and-Ok
+swallow_type!(SwAll, SwAllErr, |e, f| {
+    let _ = write!(f, "after '{}': bad char {}", e.before, e.c);
+    Ok(())
+});
+// a middle piece may fail, the rest is written regardless
+swallow_type!(SwMiddle, SwMiddleErr, |e, f| {
+    f.write_str("after ")?;
+    let _ = f.write_str(&e.before);
+    let _ = f.write_char(e.c);
+    let _ = f.write_str(".");
+    Ok(())
+});
+// writes a marker after a failure
+swallow_type!(SwAfter, SwAfterErr, |e, f| {
+    if f.write_str(&e.before).is_err() {
+        let _ = f.write_str("…");
+    }
+    let _ = write!(f, "{:?}", e.c);
+    Ok(())
+});
+
+#[derive(ArgParse)]
+#[cli(help_path = "h-cli, swallow-opts")]
+struct SwallowOpts {
+    #[cli(long = "all")]
+    a: Option<SwAll>,
+    #[cli(long = "mid")]
+    b: Option<SwMiddle>,
+    #[cli(short = "k")]
+    c: Vec<SwAfter>,
+}
+impl ToM for SwallowOpts {
+    fn to_m(&self) -> M {
+        M {
+            opts: vec![F::One(self.a.as_ref().map(|x| vs(&x.0))), F::One(self.b.as_ref().map(|x| vs(&x.0))), F::Many(self.c.iter().map(|x| vs(&x.0)).collect())],
+            pos: vec![],
+            sub: None,
+        }
+    }
+}
+#[derive(ArgParse)]
+#[cli(help_path = "h-cli, swallow-pos")]
+struct SwallowPos {
+    first: SwMiddle,
+    second: Option<SwAll>,
+}
+impl ToM for SwallowPos {
+    fn to_m(&self) -> M {
+        M { opts: vec![], pos: vec![Some(vs(&self.first.0)), self.second.as_ref().map(|x| vs(&x.0))], sub: None }
+    }
+}
+
+fn swallowers() -> Vec<Shape> {
+    vec![
+        shape(
+            "SwallowOpts",
+            g(
+                vec![o(Some("--all"), None, Opt, WordU, &[X, ACC]), o(Some("--mid"), None, Opt, WordU, &[b"7", E]), o(None, Some("-k"), Rep, WordU, &[X, ACC])],
+                vec![],
+                None,
+            ),
+            run::<SwallowOpts>,
+            || vec![help_of::<SwallowOpts>()],
+        ),
+        shape("SwallowPos", g(vec![], vec![p(true, WordU, &[X, ACC, E]), p(false, WordU, &[b"12x", L])], None), run::<SwallowPos>, || vec![help_of::<SwallowPos>()]),
     ]
 }
